@@ -228,6 +228,7 @@ class MEvent:
         self.parents = []          # conditions
         self.callbacks = 0
         self.handled = False
+        self.reg_times = []       # dates at which waiters / conditions started to observe this event
 
 
 class MCond(MEvent):
@@ -310,13 +311,22 @@ class Model:
                     if self.crash is not None and self.crash != first:
                         raise Ambiguous('two unhandled failures in one time step')
                 self.crash = first
+                if stop_ev is not None and stop_ev.state is not None and stop_ev.time == self.now:
+                    raise Ambiguous('until-event and an unhandled failure in the same time step')
                 self.check_races()
                 res['outcome'], res['exc'] = 'spyerr', self.crash
                 res['now'] = self.now
                 return res
             if stop_ev is not None and stop_ev.state is not None:
-                # the run stops in the step in which the event fires; later same-step work is unspecified
+                # the run stops in the step in which the event fires; later same-step work is unspecified -
+                # unless it would crash the run: then the outcome depends on same-step order
                 self.stop_time = self.now
+                saved = (list(self.heap), {n: list(p.log) for n, p in self.procs.items()}, list(self.cb))
+                while self.heap and self.heap[0][0] == self.now:
+                    _, _, act = heapq.heappop(self.heap)
+                    self.dispatch(act)
+                    if self.crash is not None:
+                        raise Ambiguous('until-event and an unhandled failure in the same time step')
                 break
         self.check_races()
         if stop_t is not None:
@@ -386,6 +396,7 @@ class Model:
                 self.push(self.now, ('resume', p, p.token, target.state, idx, self.seq))
             else:
                 target.waiters.append((p, p.token, idx, self.seq))
+                target.reg_times.append(self.now)
 
     def late_handler(self, ev):
         # somebody starts waiting for an event that failed earlier *in this very time step* and had
@@ -467,6 +478,7 @@ class Model:
                     sc.owner = (p.name, i, 'sub')
                     for m in sm:
                         m.parents.append(sc)
+                        m.reg_times.append(self.now)
                         if m.state is not None:
                             self.late_handler(m)
                             m.handled = True
@@ -476,6 +488,7 @@ class Model:
                 c.owner = (p.name, i)
                 for m in members:
                     m.parents.append(c)
+                    m.reg_times.append(self.now)
                     if m.state is not None:
                         if not isinstance(m, MCond):
                             self.late_handler(m)
@@ -530,6 +543,10 @@ class Model:
         self.trigger(p.result, state)
 
     def trigger(self, ev, state, callbacks=True):
+        if state[0] == 'fail' and self.now in ev.reg_times and not isinstance(ev, MCond):
+            # somebody started to observe the event in the very time step in which it fails: whether that
+            # observer counts as its handler depends on same-step order
+            raise Ambiguous('an event fails in the time step in which it got an observer')
         ev.state = state
         ev.time = self.now
         if ev.waiters or any(c.state is None for c in ev.parents):
@@ -542,8 +559,8 @@ class Model:
         for c in ev.parents:
             if c.state is None:
                 self.check_cond(c)
-            elif state[0] == 'fail' and c.state[0] == 'fail' and c.time == self.now:
-                raise Ambiguous('two members of one condition fail in the same time step')
+            elif state[0] == 'fail' and c.time == self.now:
+                raise Ambiguous('a member of a condition fails in the time step in which the condition fired')
 
     def process_event(self, ev):
         for _ in range(ev.callbacks):
